@@ -461,7 +461,12 @@ namespace sim
         }
       for (const auto &f : r.faults)
         h = fnv(&f.fired, sizeof(f.fired), h);
-      h = fnv(&r.sched.trace_hash, sizeof(uint64_t), h);
+      // Forced decision points are counted in control-flow edges, and a process that has run the library before
+      // executes a few edges fewer (function-local statics are initialised once): the decisions of such a run are
+      // reproducible from a fresh process (replay, gate), but not between the first and a later execution inside
+      // one process. Its responses have to be, so they alone make up the event-log hash.
+      if (!r.sched.preempt_on)
+        h = fnv(&r.sched.trace_hash, sizeof(uint64_t), h);
       h = fnv(&r.engine_ok, 1, h);
       return h;
     }
@@ -1147,7 +1152,8 @@ namespace sim
     for (const auto &t : res.tresp)
       for (const auto &r : t)
         hh = hash_resp(r, hh);
-    hh = fnv(&res.sched.trace_hash, sizeof(uint64_t), hh);
+    if (!res.sched.preempt_on)
+      hh = fnv(&res.sched.trace_hash, sizeof(uint64_t), hh);
     res.hash = hh;
 
     // ---------------- oracles
